@@ -489,7 +489,8 @@ def accesses(fn: ast.FunctionDef):
                     continue
                 if c.func.attr == "set" and len(c.args) == 2 and isinstance(c.args[0], ast.Constant):
                     src = resolve(c.args[1], env)
-                    out.append(("set", unparse(c.func.value), f"{c.args[0].value} <- " + ("CLOCK" if "datetime" in src else "own")))
+                    # the value comes from the clock, or from anything else (the writer's own inputs)
+                    out.append(("set-from-clock" if "datetime" in src else "set", unparse(c.func.value), str(c.args[0].value)))
                 elif c.func.attr in ("append", "CopyFrom", "extend") and len(c.args) == 1:
                     out.append((c.func.attr, unparse(c.func.value), resolve(c.args[0], env)))
                 elif d == "super().__init__":
